@@ -168,6 +168,20 @@ def scenario(ctx, sid, seed, size, nested, with_prev, call, k, action):
                         any(i < len(v) and v[i] == b for v in versions) for i, b in enumerate(got))
                 else:
                     obs['restored_matches_record'] = False
+        # the next backup of the group is made while nothing changes any more: it must restore to the file as it now is
+        # (what the disturbed run recorded about the file's identity must not pass for knowledge of its present content)
+        if rr.rc == 0 and action.split(':')[0] in ('append', 'truncate', 'shrink-grow') and os.path.isfile(real) and sid % 2 == 0:
+            r2 = w.backup(advance=50)
+            b2 = os.path.join(w.root, gdirs[0], store.backup_name(w.now))
+            if not os.path.isdir(b2):
+                cand = [os.path.join(w.root, g_, store.backup_name(w.now)) for g_ in os.listdir(w.root)]
+                b2 = next((c_ for c_ in cand if os.path.isdir(c_)), b2)
+            rd2 = os.path.join(w.base, 'restored-next')
+            rr2 = store.run_vsb(ctx, ['-c', w.cfg, 'restore', b2, rd2])
+            q2 = os.path.join(rd2, real.lstrip('/'))
+            now_ = open(real, 'rb').read()
+            obs['next_backup'] = {'rc': r2.rc, 'restore_rc': rr2.rc, 'restore_errors': rr2.errors()[:2],
+                                  'victim_exact': os.path.isfile(q2) and open(q2, 'rb').read() == now_, 'size_now': len(now_)}
         return obs
     finally:
         w.cleanup()
@@ -192,6 +206,10 @@ def oracle(o):
         return 'restore does not produce what the record describes'
     if o.get('restored_is_prefix') is False:
         return 'the restored bytes are not a prefix of what was on disk'
+    nb = o.get('next_backup')
+    if nb and (nb['rc'] != 0 or nb['restore_rc'] != 0 or not nb['victim_exact']):
+        return 'the next backup, made while nothing changed any more, does not restore to the file as it is (backup exit %s, restore exit %s %s, exact: %s)' % (
+            nb['rc'], nb['restore_rc'], nb['restore_errors'], nb['victim_exact'])
     if o.get('general_holds') and o.get('general_tree_diff'):
         return 'the restored tree is not the tree of the logical backup (restore_exact on the stored group): %s' % o['general_tree_diff']
     return None
